@@ -2203,7 +2203,7 @@ func c09WitnessAuctionTypesV2(t *testing.T, app *chain.App, base sdk.Context, tr
 }
 
 // Generation 1 message on cross-pool borrows inside the band between the two composite thresholds (non-e-mode populations, so that
-// D35 does not interfere): the price is put in the middle of the band and every cross-pool borrow is addressed by MsgLiquidateBorrow
+// D38 does not interfere): the price is put in the middle of the band and every cross-pool borrow is addressed by MsgLiquidateBorrow
 // BEFORE the sweep looks at it: exactly those whose OWN composite threshold is the lower one may be seized.
 func c09WitnessTransitBandMsgFirst(t *testing.T, app *chain.App, base sdk.Context, tr *Trace) {
 	for _, sd := range []uint64{71, 72, 73, 74} {
